@@ -49,8 +49,8 @@ Fixpoint to_py (want : bool) (e : expr) : ptext :=
   match e with
   | ECol n => ([TName n], false)
   | EVal v =>
-      (* a negative constant is a unary minus in source form *)
-      if want && num_is_neg v then (paren (val_toks v), true) else (val_toks v, false)
+      (* a constant printed with a sign (negative numbers, -0.0) is a unary minus in source form *)
+      if want && prints_with_sign v then (paren (val_toks v), true) else (val_toks v, false)
   | EList vs => (TSym "[" :: join_with [TSym ","] (map val_toks vs) ++ [TSym "]"], false)
   | EDict kvs =>
       (TSym "{" :: join_with [TSym ","] (map (fun kv => val_toks (fst kv) ++ TSym ":" :: val_toks (snd kv)) kvs)
